@@ -57,7 +57,7 @@ pub fn plan_c05(tier: Tier, seed: u64) -> Value {
     cfg.min_sync_bytes = sync.3;
     let n = 5 + rng.below(match tier { Tier::Quick => 20, Tier::Thorough => 36 });
     let crashes = match tier { Tier::Quick => 2, Tier::Thorough => 4 };
-    let max_cuts = match tier { Tier::Quick => 96, Tier::Thorough => 100_000 };
+    let max_cuts = match tier { Tier::Quick => 96, Tier::Thorough => 1_500 };
     let mix = Mix { wrong_expect: 8, conflict: 2, oversized: 3, bad_ts: 5, io_fail: 0, multi: 55, big_bias: 1, max_events: 4 };
     let mut ops = Vec::new();
     let crash_at: BTreeSet<u64> = (0..crashes).map(|_| 2 + rng.below(n.max(3) - 1)).collect();
